@@ -108,19 +108,18 @@ fn test(c: &Case) -> TestResult {
             let wr = req.is_writeable();
             let act = req.active_stream().map(u8::from);
             if wr && order.len() >= 2 {
-                // every stream before the last must have ended (the request cannot know that
-                // before the transport has handed it the stream's end record) or been skipped
-                // past (a later stream, or none, is selected). Which stream is active at that
-                // moment is not fixed by the statement.
+                // Every stream before the last must be over *on the wire*: its end record (or the
+                // first record of a later stream) must have been handed to the request - whether
+                // the handler read the stream to its end or selected a later one and had the
+                // parser skip past it. Selecting alone does not make the client's Stdin end
+                // (seeded change C09-A); which stream is active at that moment is not fixed by
+                // the statement (benign change C09/benign3 of round 1).
                 let read_pos = world.lock().unwrap().read_pos;
-                let act_idx = act.map_or(order.len(), |a| order.iter().position(|s| *s == a).unwrap_or(order.len()));
-                for (si, s) in order[..order.len() - 1].iter().enumerate() {
-                    if act_idx > si {
-                        continue; // skipped past
-                    }
+                let _ = act;
+                for s in order[..order.len() - 1].iter() {
                     match ends.get(s) {
-                        Some(&at) => vensure!(read_pos >= at, "c09-writeable-early", "request reports writeable after {read_pos} input bytes, but stream {s} (still selected) only ends at byte {at}"),
-                        None => vfail!("c09-writeable-early", "request reports writeable although stream {s} (still selected) never ends"),
+                        Some(&at) => vensure!(read_pos >= at, "c09-writeable-early", "request reports writeable after {read_pos} input bytes, but stream {s} only ends at byte {at} of the client's data"),
+                        None => vfail!("c09-writeable-early", "request reports writeable although stream {s} never ends"),
                     }
                 }
             }
